@@ -6,7 +6,9 @@ use serde::{Deserialize, Serialize};
 
 pub const MAX_THREADS: usize = 4;
 pub const MAX_SLOTS: usize = 4;
-pub const MAX_ITERS: usize = 3;
+/// Thread-local iterator slots (the ordinary script style uses the first NORMAL_ITERS).
+pub const MAX_ITERS: usize = 12;
+pub const NORMAL_ITERS: usize = 3;
 /// Every iterator is polled at most this many times in total; the reference always
 /// computes exactly this many polls.
 pub const POLL_CAP: usize = 40;
